@@ -448,7 +448,16 @@ namespace occa
           return false;
         }
 
-        variable_t &atomic_var = *(variable_node->getVariable());
+        // The updated expression might not name a variable: *p += 1, f(x) += 1
+        variable_t *atomic_var_ptr = (variable_node
+                                      ? variable_node->getVariable()
+                                      : NULL);
+        if (!atomic_var_ptr)
+        {
+          atomicSmnt.printError("Unable to transform @atomic code");
+          return false;
+        }
+        variable_t &atomic_var = *atomic_var_ptr;
         vartype_t atomic_type = atomic_var.vartype;
 
         auto *atomic_ref = new dpcppAtomicNode(atomic_var.source, atomic_type, *variable_node);
